@@ -115,7 +115,8 @@ Operands(x) ==
     \* the matching list, a shorter list, and lists of the same length with ONE entry of another shape
     THEN {MkNested(<<<<2>>, <<1, 2>>>>, 5), MkNested(<<<<2>>>>, 5), MkNested(<<<<3>>, <<1, 2>>>>, 5), MkNested(<<<<2>>, <<1, 3>>>>, 5)}
     ELSE LET s == DimsR(x.rank, x.data) IN
-         {Mk(s, 4), Mk(s, 9), Mk([s EXCEPT ![1] = (s[1] % MaxDim) + 1], 4)}
+         \* the matching shape (two seeds), and shapes that differ in the FIRST or only in the LAST dimension
+         {Mk(s, 4), Mk(s, 9), Mk([s EXCEPT ![1] = (s[1] % MaxDim) + 1], 4), Mk([s EXCEPT ![Len(s)] = (s[Len(s)] % MaxDim) + 1], 4)}
          \cup (IF x.rank = 2 THEN {Mk(<<s[1] * s[2]>>, 4)} ELSE {})
          \cup (IF x.rank = 1 THEN {Mk(<<1, s[1]>>, 4)} ELSE {})
 
